@@ -34,6 +34,11 @@ func lockAnalysis(ctx *Ctx) *locks.Analysis {
 		return nil
 	}
 	lockCache[ctx.Prog] = a
+	for _, rel := range []string{"", "rpc", "server"} {
+		if pk := ctx.Prog.Pkg(rel); pk != nil {
+			registerFieldCopies(pk)
+		}
+	}
 	return a
 }
 
